@@ -5,7 +5,7 @@
   Values: naturals; entries `i.t.k.d` (configuration entries `i.t.2.d.<config>`);
   configurations `c<index>/<id>v/<id>n…`; lists separated by `;` (`-` = empty).
 -/
-import RaftVerif.Model.Handlers
+import RaftVerif.Model.Leader
 namespace Raft.Text
 
 def natOr (s : String) (d : Nat := 0) : Nat := (s.toNat?).getD d
@@ -79,10 +79,11 @@ def parseFollower (s : String) : Follower :=
   | [i, n, m, o] => { id := natOr i, next := natOr n, mtch := natOr m, snapOpen := parseBool o }
   | _ => default
 
-def showRead (r : PendingRead) : String := s!"{r.tag}.{showBool r.lease}.{r.readIndex}.{showBool r.verified}"
+def showRead (r : PendingRead) : String := s!"{r.tag}.{showBool r.lease}.{r.readIndex}.{showBool r.verified}.{r.seq}"
 def parseRead (s : String) : PendingRead :=
   match s.splitOn "." with
   | [t, l, ri, v] => { tag := natOr t, lease := parseBool l, readIndex := natOr ri, verified := parseBool v }
+  | [t, l, ri, v, sq] => { tag := natOr t, lease := parseBool l, readIndex := natOr ri, verified := parseBool v, seq := natOr sq }
   | _ => default
 
 def showRecv : Option RecvSnap → String
@@ -113,6 +114,17 @@ def insertSorted (f : Follower) : List Follower → List Follower
 
 def sortFollowers (fs : List Follower) : List Follower := fs.foldr insertSorted []
 
+def parseRound (s : String) : Nat × Nat :=
+  match s.splitOn "." with
+  | [a, b] => (natOr a, natOr b)
+  | _ => (0, 0)
+
+def parseRound3 (s : String) : Nat × Nat × Nat :=
+  match s.splitOn "." with
+  | [a, b, c] => (natOr a, natOr b, natOr c)
+  | [a, b] => (natOr a, natOr b, 0)
+  | _ => (0, 0, 0)
+
 def showNode (n : Node) : String :=
   " ".intercalate [
     s!"id={n.id}", s!"role={showRole n.role}", s!"term={n.term}", s!"vote={n.votedFor}",
@@ -124,7 +136,10 @@ def showNode (n : Node) : String :=
     s!"prep={joinList (n.pendingRep.map toString)}",
     s!"reads={joinList (n.pendingReads.map showRead)}",
     s!"cfgf={match n.cfgFuture with | none => "nil" | some i => toString i}",
-    s!"recv={showRecv n.recv}", s!"et={n.et}", s!"ld={n.leaseDur}" ]
+    s!"recv={showRecv n.recv}", s!"et={n.et}", s!"ld={n.leaseDur}",
+    s!"rvr={joinList (n.rvRounds.map (fun r => s!"{r.1}.{r.2}"))}",
+    s!"aer={joinList (n.aeRounds.map (fun r => s!"{r.1}.{r.2.1}.{r.2.2}"))}", s!"nr={n.nextRound}",
+    s!"rs={n.readSeq}", s!"pw={showBool n.prevoteWon}" ]
 
 def parseNode (s : String) : Node :=
   let kv := parseKV s
@@ -140,7 +155,10 @@ def parseNode (s : String) : Node :=
     pendingReads := (splitList (kv.get "reads" "-")).map parseRead,
     cfgFuture := (kv.get "cfgf" "nil").toNat?,
     recv := parseRecv (kv.get "recv" "nil"),
-    et := natOr (kv.get "et" "300") 300, leaseDur := natOr (kv.get "ld" "100") 100 }
+    et := natOr (kv.get "et" "300") 300, leaseDur := natOr (kv.get "ld" "100") 100,
+    rvRounds := (splitList (kv.get "rvr" "-")).map parseRound,
+    aeRounds := (splitList (kv.get "aer" "-")).map parseRound3,
+    nextRound := natOr (kv.get "nr"), readSeq := natOr (kv.get "rs"), prevoteWon := parseBool (kv.get "pw" "0") }
 
 def showEffect : Effect → String
   | .setState t v => s!"ss({t},{v})"
@@ -178,5 +196,18 @@ def parseRVReq (s : String) : RVReq :=
     lastTerm := natOr (kv.get "lt"), prevote := parseBool (kv.get "pv") }
 
 def showRVResp (r : RVResp) : String := s!"term={r.term} ok={showBool r.granted}"
+
+def showAEReq (q : AEReq) : String :=
+  s!"leader={q.leaderId} term={q.term} lc={q.leaderCommit} pi={q.prevIndex} pt={q.prevTerm} ents={showEntries q.entries}"
+def showRVReq (q : RVReq) : String :=
+  s!"cand={q.candidate} term={q.term} li={q.lastIndex} lt={q.lastTerm} pv={showBool q.prevote}"
+def parseAEResp (s : String) : Option AEResp :=
+  if s.trimAscii.toString == "err" then none else
+  let kv := parseKV s
+  some { term := natOr (kv.get "term"), success := parseBool (kv.get "ok"), index := natOr (kv.get "idx") }
+def parseRVResp (s : String) : Option RVResp :=
+  if s.trimAscii.toString == "err" then none else
+  let kv := parseKV s
+  some { term := natOr (kv.get "term"), granted := parseBool (kv.get "ok") }
 
 end Raft.Text
